@@ -1,0 +1,62 @@
+//go:build verif
+
+/*
+ Licensed to the Apache Software Foundation (ASF) under one
+ or more contributor license agreements.  See the NOTICE file
+ distributed with this work for additional information
+ regarding copyright ownership.  The ASF licenses this file
+ to you under the Apache License, Version 2.0 (the
+ "License"); you may not use this file except in compliance
+ with the License.  You may obtain a copy of the License at
+
+     http://www.apache.org/licenses/LICENSE-2.0
+
+ Unless required by applicable law or agreed to in writing, software
+ distributed under the License is distributed on an "AS IS" BASIS,
+ WITHOUT WARRANTIES OR CONDITIONS OF ANY KIND, either express or implied.
+ See the License for the specific language governing permissions and
+ limitations under the License.
+*/
+
+package events
+
+import "github.com/apache/yunikorn-scheduler-interface/lib/go/si"
+
+// Export shims for the model-based verification harness (build tag verif).
+
+// VerifRingBuffer wraps the unexported ring buffer.
+type VerifRingBuffer struct {
+	buf *eventRingBuffer
+}
+
+func VerifNewRingBuffer(capacity uint64) *VerifRingBuffer {
+	return &VerifRingBuffer{buf: newEventRingBuffer(capacity)}
+}
+
+func (v *VerifRingBuffer) Add(event *si.EventRecord) {
+	v.buf.Add(event)
+}
+
+func (v *VerifRingBuffer) Resize(newSize uint64) {
+	v.buf.Resize(newSize)
+}
+
+func (v *VerifRingBuffer) GetEventsFromID(id, count uint64) ([]*si.EventRecord, uint64, uint64) {
+	return v.buf.GetEventsFromID(id, count)
+}
+
+func (v *VerifRingBuffer) GetRecentEvents(count uint64) []*si.EventRecord {
+	return v.buf.GetRecentEvents(count)
+}
+
+func (v *VerifRingBuffer) GetLastEventID() uint64 {
+	return v.buf.GetLastEventID()
+}
+
+func (v *VerifRingBuffer) NewStreaming() *EventStreaming {
+	return NewEventStreaming(v.buf)
+}
+
+func VerifNewEventStore(size uint64) *EventStore {
+	return newEventStore(size)
+}
